@@ -1,6 +1,230 @@
-// C09 perturbation mode (filled in below)
+// C09: one item (grammar, result-selecting flags, input) parsed under many lookahead levels, debug levels and
+// simulator-owned internal choices (goto-cache veto, knob presets, realloc policy, debug sink) inside one plan;
+// the executor's group check demands identical outcomes and hook H5 checks every accepted cache hit
+// (DESIGN.md §5 C09).
 #include "exec.h"
+#include <cstdio>
+#include <cstdlib>
+#include <cstring>
+#include <fstream>
+#include <sstream>
+
 namespace sim {
-Plan gen_perturb_plan(uint64_t seed) { return gen_hist_plan(seed, false); }
-int perturb_main(int, char **) { return 2; }
+
+namespace {
+
+const GrammarSpec *hand(const char *tag) {
+  for (auto &g : handwritten_good()) if (g.tag == tag) return &g;
+  return nullptr;
 }
+
+std::vector<int> chars(const std::string &s) { std::vector<int> v; for (unsigned char c : s) v.push_back(c); return v; }
+
+// long inputs with many repeated fragments: the same (set, terminal, lookahead) triple recurs with equal and
+// with different origin sets
+std::vector<int> etf_input(Rng &r, int max_tokens, bool with_errors) {
+  static const char *frags[] = {"a", "a*a", "(a+a)", "(a*a+a)", "((a))", "a*(a+a*a)", "(a)*(a)", "a*a*a"};
+  std::vector<std::string> block;
+  int bl = r.range(2, 7);
+  for (int i = 0; i < bl; i++) block.push_back(frags[r.below(8)]);
+  std::string s;
+  int depth = 0;
+  while ((int)s.size() < max_tokens) {
+    for (auto &f : block) {
+      if (!s.empty() && s.back() != '(') s += r.chance(3, 4) ? "+" : "*";
+      if (r.chance(1, 12) && depth < 6) { s += "("; depth++; }
+      s += r.chance(1, 10) ? frags[r.below(8)] : f.c_str();
+      if (depth > 0 && r.chance(1, 10)) { s += ")"; depth--; }
+    }
+  }
+  while (depth-- > 0) s += ")";
+  if (with_errors) {
+    int ne = r.range(1, 3);
+    for (int i = 0; i < ne && !s.empty(); i++) {
+      size_t pos = (size_t)r.below(s.size());
+      static const char *junk[] = {"+", ")", "(", "*", "a"};
+      if (r.chance(1, 2)) s.insert(pos, junk[r.below(5)]);
+      else s.erase(pos, 1);
+    }
+  }
+  return chars(s);
+}
+
+std::vector<int> stmts_input(Rng &r, int max_tokens) {
+  std::string s;
+  while ((int)s.size() < max_tokens) {
+    int k = (int)r.below(10);
+    if (k < 7) s += "i;";
+    else if (k == 7) s += "ii;";
+    else if (k == 8) s += ";";
+    else s += "i;i";
+  }
+  return chars(s);
+}
+
+struct Variant { int la, dbg, knobs, cache_skip, selfcheck, realloc_mode, sink; };
+
+Plan build(Rng &r, uint64_t seed, const GrammarSpec &g, const std::vector<int> &input, int one, int cost, int rec, int match, bool heavy) {
+  Plan p;
+  p.seed = seed;
+  p.mode = "perturb";
+  p.cfg.poison = r.chance(1, 2) ? 0xAB : 0x5A;
+  p.cfg.pad = r.range(0, 3);
+  p.cfg.quarantine = r.range(0, 16);
+  p.cfg.salt = r.next();
+  p.backends = r.chance(1, 4) ? 3 : 1;
+  p.grammars.push_back(g);
+  p.inputs.push_back(input);
+  std::vector<Variant> vs;
+  vs.push_back({0, 0, 0, 256, 0, 0, 0}); // reference: no lookahead, no output, cache switched off, shipped sizes
+  static const int dbgs_light[] = {1, 2, 3, 4, 5, 6, -1};
+  static const int dbgs_heavy[] = {1, 2, -1};
+  for (int la = 0; la <= 2; la++)
+    for (int d = 0; d < 2; d++) {
+      Variant v;
+      v.la = la;
+      v.dbg = d == 0 ? 0 : (heavy ? dbgs_heavy[r.below(3)] : dbgs_light[r.below(7)]);
+      v.knobs = (int)r.below((uint64_t)kNumKnobs);
+      static const int cs[] = {0, 0, 0, 16, 128};
+      v.cache_skip = cs[r.below(5)];
+      v.selfcheck = r.chance(3, 4) ? 1 : 0;
+      v.realloc_mode = (int)r.below(3);
+      v.sink = v.dbg ? (int)r.below(3) : 0;
+      vs.push_back(v);
+    }
+  vs.push_back({-3, 0, (int)r.below((uint64_t)kNumKnobs), 0, 1, 0, 0});
+  vs.push_back({7, heavy ? 1 : 3, (int)r.below((uint64_t)kNumKnobs), 16, 1, 1, 0});
+  // seeded order, reference somewhere in the middle as well
+  for (size_t i = vs.size() - 1; i > 0; i--) std::swap(vs[i], vs[(size_t)r.below(i + 1)]);
+  for (auto &v : vs) {
+    Op c; c.task = 1; c.kind = OP_CONFIG;
+    c.c_knobs = v.knobs; c.c_cache_skip = v.cache_skip; c.c_selfcheck = v.selfcheck; c.c_realloc = v.realloc_mode; c.c_sink = v.sink;
+    p.ops.push_back(c);
+    Op cr; cr.task = 1; cr.kind = OP_CREATE;
+    p.ops.push_back(cr);
+    auto set = [&](Setter s, int val) { Op o; o.task = 1; o.kind = OP_SET; o.setter = s; o.value = val; o.obj = 0; p.ops.push_back(o); };
+    if (v.la != 1) set(S_LOOKAHEAD, v.la);
+    if (v.dbg != 0) set(S_DEBUG, v.dbg);
+    if (one != 1) set(S_ONE_PARSE, one);
+    if (cost != 0) set(S_COST, cost);
+    if (rec != 1) set(S_RECOVERY, rec);
+    if (match != 3) set(S_MATCH, match);
+    Op d; d.task = 1; d.kind = OP_DEFINE; d.grammar = 0; d.obj = 0;
+    p.ops.push_back(d);
+    Op pa; pa.task = 1; pa.kind = OP_PARSE; pa.input = 0; pa.obj = 0; pa.alloc = AM_CUSTOM_FREE;
+    p.ops.push_back(pa);
+    if (r.chance(1, 3)) p.ops.push_back(pa); // a second parse on the same object (second parse at lookahead 2 included)
+    Op fg; fg.task = 1; fg.kind = OP_FREE_GRAMMAR; fg.obj = 0;
+    p.ops.push_back(fg);
+    Op ft; ft.task = 1; ft.kind = OP_FREE_TREE; ft.tree = 0;
+    p.ops.push_back(ft);
+    p.ops.push_back(ft);
+  }
+  return p;
+}
+
+} // namespace
+
+Plan gen_perturb_plan(uint64_t seed) {
+  Rng r(seed * 0xA24BAED4963EE407ull + 99);
+  const Pool &pool = pool_for_seed(seed);
+  int kind = (int)r.below(20);
+  int maxtok = getenv("VSIM_PERTURB_MAXTOK") ? atoi(getenv("VSIM_PERTURB_MAXTOK")) : 600;
+  if (kind < 7) { // long repetitive sentences / non-sentences of the expression grammar
+    int n = r.chance(1, 4) ? r.range(maxtok / 2, maxtok) : r.range(10, 120);
+    bool err = r.chance(1, 4);
+    return build(r, seed, *hand("suite-ETF"), etf_input(r, n, err), 1, 0, r.chance(9, 10) ? 1 : 0, r.chance(3, 4) ? 3 : r.range(1, 5), n > 150);
+  }
+  if (kind < 9) { // statement lists with error rules: recovery runs over cached sets
+    int n = r.chance(1, 3) ? r.range(100, maxtok / 2) : r.range(6, 60);
+    return build(r, seed, *hand("err-stmts"), stmts_input(r, n), 1, 0, 1, r.range(1, 4), n > 150);
+  }
+  if (kind < 11) { // ambiguous, all parses / cost: short inputs (tree sets are enumerated)
+    const char *tags[] = {"ambig-E", "cost-E", "alt-deep", "cost-ABC", "nullable", "hidden-lr"};
+    const GrammarSpec *g = hand(tags[r.below(6)]);
+    std::string s;
+    if (g->tag == "ambig-E" || g->tag == "cost-E") { int n = r.range(1, 5); s = "a"; for (int i = 0; i < n; i++) { s += r.chance(1, 2) ? "+" : "*"; s += "a"; } if (r.chance(1, 5)) s += "+"; }
+    else if (g->tag == "alt-deep") s = std::string((size_t)r.range(1, 7), 'a');
+    else if (g->tag == "cost-ABC") s = r.chance(3, 4) ? "ab" : "abb";
+    else if (g->tag == "nullable") { static const char *x[] = {"abc", "", "ac", "b", "cb", "abcc"}; s = x[r.below(6)]; }
+    else { static const char *x[] = {"x", "axb", "aaxbb", "xb", "axbb", "aaaxbbb"}; s = x[r.below(6)]; }
+    return build(r, seed, *g, chars(s), (int)r.below(2), (int)r.below(2), 1, 3, false);
+  }
+  if (kind < 13) { // ambiguous grammar, one parse requested, long input: the single tree must not depend on the level
+    int n = r.range(5, 40);
+    std::string s = "a";
+    for (int i = 0; i < n; i++) { s += r.chance(1, 2) ? "+" : "*"; s += "a"; }
+    return build(r, seed, *hand(r.chance(1, 2) ? "ambig-E" : "cost-E"), chars(s), 1, (int)r.below(2), 1, 3, false);
+  }
+  // generated grammars of the pool with their sentences and mutated non-sentences
+  size_t gi = (size_t)r.below(pool.good.size());
+  const auto &ins = pool.inputs[gi];
+  std::vector<int> in = ins[(size_t)r.below(ins.size())];
+  // repeat the input to make it longer where the grammar allows it (it is simply another input otherwise)
+  if (r.chance(1, 3)) { std::vector<int> rep; int k = r.range(2, 4); for (int i = 0; i < k; i++) rep.insert(rep.end(), in.begin(), in.end()); if (rep.size() <= 40) in = rep; }
+  int one = r.chance(2, 3) ? 1 : 0, cost = r.chance(1, 4) ? 1 : 0;
+  if ((!one || cost) && in.size() > 10) in.resize(10);
+  return build(r, seed, pool.good[gi], in, one, cost, r.chance(5, 6) ? 1 : 0, r.chance(2, 3) ? 3 : r.range(0, 4), false);
+}
+
+// The 200-rule ANSI C grammar shipped with the tests (description extracted from test/C/test41.c by bin/build)
+// and the token stream of test/test.i (flex lexer test/ansic.l), cut and repeated by seed.
+Plan gen_ansic_plan(uint64_t seed) {
+  Rng r(seed * 0x9FB21C651E98DF25ull + 5);
+  const char *dp = getenv("VSIM_ANSIC_DESC"), *tp = getenv("VSIM_ANSIC_TOKS");
+  Plan empty;
+  if (!dp || !tp) return empty;
+  std::ifstream df(dp), tf(tp);
+  std::stringstream ds;
+  ds << df.rdbuf();
+  GrammarSpec g;
+  g.text = true;
+  g.tag = "ansic";
+  g.desc = ds.str();
+  g.strict = 1;
+  g.expect = 0;
+  std::vector<int> toks;
+  int c;
+  while (tf >> c) toks.push_back(c);
+  std::set<int> codes(toks.begin(), toks.end());
+  // declared codes: every "NAME = number" of the TERM section and every character literal
+  {
+    const std::string &d = g.desc;
+    for (size_t i = 0; i + 2 < d.size(); i++) {
+      if (d[i] == '\'' && d[i + 2] == '\'') codes.insert((unsigned char)d[i + 1]);
+      if (d[i] == '=') { size_t j = i + 1; while (j < d.size() && (d[j] == ' ' || d[j] == '\t')) j++; if (j < d.size() && isdigit((unsigned char)d[j])) codes.insert(atoi(d.c_str() + j)); }
+    }
+  }
+  g.codes.assign(codes.begin(), codes.end());
+  // top-level declarations end with ';' or '}' at nesting depth 0: cut the stream there
+  std::vector<size_t> cuts;
+  int depth = 0;
+  for (size_t i = 0; i < toks.size(); i++) {
+    if (toks[i] == '{') depth++;
+    if (toks[i] == '}') depth--;
+    if (depth == 0 && (toks[i] == ';' || toks[i] == '}')) cuts.push_back(i + 1);
+  }
+  size_t maxtok = getenv("VSIM_ANSIC_MAXTOK") ? (size_t)atol(getenv("VSIM_ANSIC_MAXTOK")) : toks.size();
+  std::vector<int> in;
+  int style = (int)r.below(3);
+  if (style == 0 || cuts.empty()) { // a prefix of the file ending at a top-level boundary
+    size_t want = (size_t)r.range(200, (int)std::min(maxtok, toks.size()));
+    size_t end = 0;
+    for (size_t cpos : cuts) if (cpos <= want) end = cpos;
+    in.assign(toks.begin(), toks.begin() + (long)end);
+  } else { // generated repetitive translation unit: seeded top-level declarations, each repeated several times
+    while (in.size() < std::min(maxtok, (size_t)r.range(500, 6000))) {
+      size_t k = (size_t)r.below(cuts.size() - 1);
+      size_t a = cuts[k], b = cuts[k + 1];
+      if (b - a > 400) continue;
+      int rep = r.range(1, 6);
+      for (int i = 0; i < rep; i++) in.insert(in.end(), toks.begin() + (long)a, toks.begin() + (long)b);
+    }
+  }
+  if (style == 2 && !in.empty() && r.chance(1, 2)) in.erase(in.begin() + (long)r.below(in.size())); // one syntax error
+  return build(r, seed, g, in, 1, 0, 1, 3, true);
+}
+
+int perturb_main(int, char **) { return 2; }
+
+} // namespace sim
